@@ -89,6 +89,8 @@ pub fn run(env: &Env, run: &Run) -> (Stats, Coverage) {
     st.merge(run_structural(&sigma, run.tier, |s, st| visit(env, s, st)));
     let dfam = crate::props::rules::decomposition_family(env);
     st.merge(run_family(&dfam, |s, st| visit(env, s, st)));
+    let stairs = crate::props::rules::block_staircases(env, crate::subject::Class::Freeform);
+    st.merge(run_family(&stairs, |s, st| visit(env, s, st)));
     let max_rounds = (1..=4).rev().find(|r| st.counters.get(&format!("rounds:{}", r)).copied().unwrap_or(0) > 0).unwrap_or(0);
     st.sample(json!({"input": ["U+00A8", "a"], "expected": "round 1: NFKC gives ' ' U+0308 a; round 2 trims the space: 'U+0308 a'; round 3 confirms"}));
     st.sample(json!({"input": ["U+00E9", " ", " ", "b"], "expected": "Ok(\"U+00E9 b\") - interior run collapses to one space next to a 2-byte character"}));
